@@ -33,6 +33,7 @@ type TStorm struct {
 	DialDelayMs  int    `json:"dial_delay_ms"`  // the server's outbound dials (Connect) take this long
 	DropCtrl     bool   `json:"drop_ctrl"`      // clients sometimes close their control connection and come back
 	ListenErrors bool   `json:"listen_errors"`  // relay listeners sometimes fail in Accept
+	Dialers      int    `json:"dialers"`        // goroutines that open a fresh control connection every round (also while Server.Close runs)
 	TCPStorm     bool   `json:"tcp_storm"`      // format marker
 }
 
@@ -240,6 +241,36 @@ func runTStormInner(s *TStorm) (res stormResult) { //nolint:cyclop,gocyclo,maint
 			}
 		}()
 	}
+	// newcomers: a fresh connection to the listener every round, a Binding request, gone a round later
+	for di := 0; di < s.Dialers; di++ {
+		wg.Add(1)
+		go func() {
+			defer wg.Done()
+			var last *sim.Conn
+			for round := 0; round < s.Rounds; round++ {
+				time.Sleep(time.Second)
+				if last != nil {
+					_ = last.Close()
+				}
+				conn, derr := w.net.DialTCPFrom(&net.TCPAddr{IP: net.IPv4(10, 1, 9, byte(di+1)), Port: 20000 + round}, srvAddr)
+				if derr != nil {
+					last = nil
+
+					continue
+				}
+				m := &ref.Msg{Method: ref.MethodBinding, Class: ref.ClassRequest}
+				m.TxID[0], m.TxID[1] = byte(di), byte(round)
+				_, _ = conn.Write(m.Encode())
+				last = conn
+				mu.Lock()
+				actions++
+				mu.Unlock()
+			}
+			if last != nil {
+				_ = last.Close()
+			}
+		}()
+	}
 	// peers: dial the relayed addresses handed out so far, answer and close what the server dialled
 	for pi := 0; pi < 3; pi++ {
 		lis := w.peers[[]int{0, 1, 3}[pi]]
@@ -380,6 +411,7 @@ func genTStorm(rt *rapid.T) *TStorm {
 		s.DialDelayMs = rapid.SampledFrom([]int{1, 100, 600, 1600, 3600}).Draw(rt, "dialDelay")
 	}
 	s.DropCtrl = rapid.Bool().Draw(rt, "dropCtrl")
+	s.Dialers = rapid.SampledFrom([]int{0, 1, 4, 8}).Draw(rt, "dialers")
 	s.ListenErrors = rapid.Bool().Draw(rt, "listenErrors")
 
 	return s
